@@ -28,6 +28,9 @@ CHECKS = {
  "C14": ("exploration", "runtime monitor: reference sweep written from the statement; observer core + encoder spy compare the main entry's fields; conservation check that every malformed argument is identified in an error-level diagnostic; fmt as oracle for messages",
          "Every argument list over an 8-symbol alphabet up to length 4 (quick) / 5 (thorough) is enumerated and longer lists over 12 symbols sampled, through With, WithLazy, every *w method and Logw at every level: well-formed arguments must appear exactly as the reference sweep (typed fields unchanged, string-keyed pairs as zap.Any, first bare error under 'error'), every dangling key / non-string-key pair (position, key, value) / additional error must be identified in an error-level entry, nothing may panic. Seeded templates and argument lists through all 42 print/printf/println methods are compared with fmt.Sprint/Sprintf/Sprintln.",
          "Caller annotation of zap's own diagnostic entries is a don't-care. Open known finding D13 (empty template with arguments).", "3/C14"),
+ "C07": ("exploration", "runtime monitor: derivation-program model (per-node name, ordered field segments, evaluation moment of each With/WithLazy segment via version-probe marshalers) compared with JSON, console and observer output of every entry",
+         "N seeded derivation programs (trees of With/WithLazy/Named/WithOptions(Fields)/Sugar/Desugar and sugared With/WithLazy, 1-20 fields per step incl. namespaces) run over tee(JSON, console, observer) under transparent wrappers; nodes log in random order interleaved with further derivations and all log again at the end, so parents are re-checked after children were derived and used; every entry must carry exactly its own path's name and fields in order, with With fields evaluated at derivation and WithLazy fields at first use.",
+         "First use of a WithLazy logger is the first log call through it, the first With-style derivation from it, or either of those on a logger that shares its core (Named/Sugar/Desugar clones).", "3/C07"),
 }
 NOT_YET = {}
 props = [json.loads(l) for l in open(os.path.join(V, "properties.jsonl"))]
